@@ -163,6 +163,9 @@ def run(ctx, deep=False):
         _full_buffer_reset_window(ctx, gen)
         from props import c01
         good = sockcheck.judge_family(ctx, "C16", c01._full_buffer_requeue(), ["c01a", "c01d"], gen=gen, nontrivial=_nontrivial)
+        # open_socket() called again on a client that is open already (an application that calls init() once more after it returned False):
+        # "leaves the held ones untouched" - they are transmitted when the connection comes up
+        sockcheck.judge_family(ctx, "C16", c01._redundant_open(), ["c01a", "c01c", "c01d"], gen=gen, nontrivial=_nontrivial)
         sockcheck.validate_against_model(ctx, good, "AT%d" % gen)
     ctx.assumptions += ["the in-memory transport stands in for the kernel's TCP stack", "times are multiples of 1/8 s"]
 
